@@ -74,6 +74,10 @@ def find (s : S) (wd : Nat) : Option WL := s.lists wd
 /-- write back a list record (RB_INSERT for a new one, in-place update otherwise) -/
 def setList (s : S) (w : WL) : S := { s with lists := upd s.lists w.wd (some w) }
 
+/-- the mask uv_fs_event_start registers, linux.c:2673-2680:
+    IN_ATTRIB|IN_CREATE|IN_MODIFY|IN_DELETE|IN_DELETE_SELF|IN_MOVE_SELF|IN_MOVED_FROM|IN_MOVED_TO -/
+def WATCH_MASK : Nat := 0x4 ||| 0x100 ||| 0x2 ||| 0x200 ||| 0x400 ||| 0x800 ||| 0x40 ||| 0x80
+
 def UV_RENAME : Nat := 1
 def UV_CHANGE : Nat := 2
 def IN_MODIFY : Nat := 2
